@@ -5,7 +5,7 @@
    overlap flag is raised exactly when a used bit is claimed again (C02_overlap_flag).
    The composite statement (layout of whole parameter trees) is correspondence-only. *)
 From Coq Require Import ZArith List Bool.
-From OV Require Import Base.Bytes Base.Wire Generated Model.Str Model.Codec Proofs.BytesProofs Proofs.AtomicProofs Proofs.CodecProps.
+From OV Require Import Base.Bytes Base.Wire Generated Model.Str Model.Codec Proofs.BytesProofs Proofs.AtomicProofs Proofs.CodecProps Proofs.FlatProofs.
 Import ListNotations.
 Open Scope Z_scope.
 
@@ -42,3 +42,24 @@ Theorem C02_byte_order : forall O C M,
   rev (masked_write O C M) = masked_write (rev O) (rev C) (rev M).
 Proof. exact masked_write_rev. Qed.
 Print Assumptions C02_byte_order.
+
+(* message level: the PDU of a message which is a sequence of standard-length CODED-CONST / VALUE
+   parameters with implicit positions is exactly the concatenation of the raw values, big endian
+   (byte-swapped for little endian numeric objects), each zero-padded at the top to whole bytes,
+   in parameter order; no overlap warning *)
+Theorem C02_flat_wire_format : forall fl vv raws,
+  Forall2 (fun x raw => sane vv x /\ 0 <= raw < 2 ^ f_bl x /\
+                        raw_of (vv (fname x)) (f_bl x) (f_bt x) (f_en x) (f_hl x) = Ok raw /\
+                        value_of_raw raw (f_bl x) (f_bt x) (f_en x) (f_hl x) = Ok (vv (fname x))) fl raws ->
+  NoDup (map fname fl) ->
+  encode_msg (map mkp fl) None (VDict (fvals vv (filter is_value fl))) =
+  Ok (concat (map (fun p => wire_bytes (fst p) (snd p)) (combine fl raws)), false).
+Proof. exact flat_wire_format. Qed.
+Print Assumptions C02_flat_wire_format.
+
+Theorem C02_wire_example :
+  let fl := [mkF [115] 8 BUint None true BUint (Some (VInt 34)); mkF [112; 50] 12 BUint None false BUint None;
+             mkF [112; 52] 8 BInt (Some Enc2C) true BInt None] in
+  concat (map (fun p => wire_bytes (fst p) (snd p)) (combine fl [34; 2748; 254])) = [34; 188; 10; 254].
+Proof. exact wire_example. Qed.
+Print Assumptions C02_wire_example.
